@@ -165,7 +165,13 @@ class Gen:
       return None
     return self.rng.choice(TIME_GRID)
 
+  def lang(self, a: AbsEl):
+    if self.p.get("p_lang", 0) and self.rng.random() < self.p["p_lang"]:
+      a.lang = self.rng.choice(["en", "fr", "ja", "de-CH", ""])
+      self.classes.add("element-lang")
+
   def timing(self, a: AbsEl, p=None):
+    self.lang(a)
     p = self.p["p_time"] if p is None else p
     if self.rng.random() < p:
       if self.rng.random() < 0.8:
